@@ -38,7 +38,7 @@ Failing(e) ==
        Cl(P(e, "C09.reportedWereAdded"), \A a \in 0 .. DD : \A x \in ToSet(e.q_post[a + 1]) : x \in Elems /\ gp[x] > 0) \cup
        Cl(P(e, "C09.tableBound"),
           n > 0 => Len(e.q_post[1]) * LH <= Wd * (HL(CeilDiv(n, Wd)) + LH) + Wd * CeilDiv(n, Wd)) \cup
-       Cl("C19.clone", e.twin_ok) \cup
+       Cl("C19.clone", e.twin_ok) \cup LockStepClause(e) \cup
        (IF e.op.name = "add" THEN
            Cl("C09.addReturnsWhetherUntracked", (e.res = "new") <=> (e.elem \notin ToSet(e.q_pre[1])))
         ELSE {}) \cup
